@@ -73,6 +73,55 @@ class Source(object):
 def fn_body(fn):
     return parse_block_tokens(fn.body)
 
+def private_helpers(src, file, imp, not_called_in=None):
+    """private functions of `file` that a body may call by path: free functions (`h(..)`) and associated functions
+    without a receiver of the inherent impls of the same type (`Self::h(..)`, `Type::h(..)`).  With `not_called_in`
+    (a token text), functions named there are left out: the reference body calls them too."""
+    out = {}
+    head = None
+    if imp is not None:
+        info = src.impl_info(imp)
+        if info and info['self_ty'][0] == 'tpath': head = info['self_ty'][1][-1]
+    for f, i2, fn in src.fns:
+        if f != file or fn.vis.strip() != '' or fn.cfgs() or fn.cfg_test(): continue
+        if not_called_in is not None and re.search(r'\b%s\b' % re.escape(fn.name), not_called_in): continue
+        try:
+            sig = parse_fn_sig(fn.header); body = fn_body(fn)
+        except (ParseError, IndexError, TypeError):
+            continue
+        if any(pn == 'self' for pn, ty in sig['params']): continue
+        if not all(re.match(r'^(mut )?[a-z_][A-Za-z0-9_]*$', pn.strip()) for pn, ty in sig['params']): continue
+        self_txt = None
+        if i2 is not None:
+            inf2 = src.impl_info(i2)
+            if not inf2 or inf2['trait'] is not None or inf2['self_ty'][0] != 'tpath': continue
+            self_txt = type_text(inf2['self_ty']).replace(' ', '')
+        def ty_txt(ty):
+            t = type_text(ty).replace(' ', '')
+            return re.sub(r'\bSelf\b', self_txt, t) if self_txt else t
+        ent = dict(params=[(pn.strip()[4:].strip() if pn.strip().startswith('mut ') else pn.strip(), ty_txt(ty)) for pn, ty in sig['params']], body=body)
+        if i2 is None:
+            if fn.parent is None or fn.parent.kind != 'impl': out[(fn.name,)] = ent
+        elif head is not None and inf2['self_ty'][1][-1] == head:
+            out[('Self', fn.name)] = ent; out[(head, fn.name)] = ent
+    return out
+
+def caller_param_types(src, imp, fn):
+    """declared types of the caller's parameters, `Self` spelled out"""
+    try: sig = parse_fn_sig(fn.header)
+    except ParseError: return {}
+    self_txt = None
+    info = src.impl_info(imp) if imp is not None else None
+    if info: self_txt = type_text(info['self_ty']).replace(' ', '')
+    out = {}
+    for pn, ty in sig['params']:
+        t = type_text(ty).replace(' ', '')
+        if self_txt: t = re.sub(r'\bSelf\b', self_txt, t)
+        pn = pn.strip()
+        if pn.startswith('mut '): pn = pn[4:].strip()
+        out[pn] = t
+    return out
+
 # ----------------------------------------------------------------------------
 # let-inlining
 # ----------------------------------------------------------------------------
@@ -419,8 +468,13 @@ def extract_layout(src, facts, notes):
     if r:
         sig, body, ctx, env = r
         t = strip(body[2]) if body[2] is not None else None
+        # `unsafe { Box::from_raw(this.ptr()).data }`, or the same with the box under a name (a `let` that is used once)
+        if t is not None and t[0] == 'unsafe' and not t[1][1] and t[1][2] is not None: t = strip(t[1][2])
         if t is not None and t[0] == 'field' and t[2] == 'data':
             c = strip(t[1])
+            if c[0] == 'path' and len(c[1]) == 1 and c[1][0] in env and __import__('canon')._count(body, c[1][0]) == 1:
+                c = strip(env[c[1][0]])
+                if c[0] == 'unsafe' and not c[1][1] and c[1][2] is not None: c = strip(c[1][2])
             if c[0] == 'call' and call_path(c) == 'Box::from_raw' and len(c[2]) == 1 and not path_generics(c[1]):
                 a = strip(resolve(c[2][0], {}))
                 if a[0] == 'mcall' and a[2] == 'ptr':
@@ -700,6 +754,15 @@ def extract_protocol(src, facts, notes):
                     P['drop_shape'] = (stage == 2) or True
                     stage = 3
             if stage != 3: P['drop_shape'] = False
+            if not P['drop_shape']:
+                # the same protocol written with an intermediate `let` etc.: read it off the translated program
+                import countprogs
+                dp = countprogs.drop_prog(src)
+                m = [re.match(r'^(IDec|ILoad|IRetIfNe|IDestroyFree)(?: (O\w+))?(?: (true|false|\d+))?$', i) for i in dp]
+                if len(dp) == 4 and all(m) and [x.group(1) for x in m] == ['IDec', 'IRetIfNe', 'ILoad', 'IDestroyFree'] \
+                        and m[0].group(3) == 'true' and dp[1] == 'IRetIfNe 1':
+                    names = {'ORlx': 'Rlx', 'OAcq': 'Acq', 'ORel': 'Rel', 'OAcqRel': 'AcqRel'}
+                    P['dec_ord'] = names[m[0].group(2)]; P['acq_ord'] = names[m[2].group(2)]; P['acq_kind'] = 'load'; P['drop_shape'] = True
         except ParseError as ex:
             notes.append('protocol: cannot parse Arc::drop_inner: %s' % ex)
     # clone: `let old = count.fetch_add(1, O); if old > MAX_REFCOUNT { abort(); } ...`
@@ -856,8 +919,22 @@ def extract_pointers(src, facts, notes):
             r = src.find_fns(f, q)
             if len(ent) > 3:      # several impls define this name: the impl header selects one
                 r = [x for x in r if x[1] is not None and ent[3] in toks_text(x[1].header)]
-            # compared up to a consistent renaming of parameters and locals
-            if len(r) != 1 or (toks_text(r[0][2].body) != txt and alpha_norm(r[0][2].body, fn_params(r[0][2])) != alpha_norm(lex(txt), golden_forms.PARAMS.get((f, q) + tuple(ent[3:4]), fn_params(r[0][2])))):
+            # compared up to refactorings that cannot change behaviour (tools/canon.py): renaming, naming an intermediate
+            # value, unsafe/paren/block wrappers, negated if, add/offset, path call versus method call
+            def same(fn, imp=None):
+                if toks_text(fn.body) == txt: return True
+                gp = golden_forms.PARAMS.get((f, q) + tuple(ent[3:4]), fn_params(fn))
+                if alpha_norm(fn.body, fn_params(fn)) == alpha_norm(lex(txt), gp): return True
+                try:
+                    import canon
+                    heads = ('Self', q.split('::')[0])
+                    want = canon.canon(lex(txt), gp, heads)
+                    if canon.canon(fn.body, fn_params(fn), heads) == want: return True
+                    hs = private_helpers(src, f, imp, not_called_in=txt)
+                    return bool(hs) and canon.canon(fn.body, fn_params(fn), heads, hs, caller_param_types(src, imp, fn)) == want
+                except Exception:
+                    return False
+            if len(r) != 1 or not same(r[0][2], r[0][1]):
                 ok = False; PT['diffs'].append('%s:%s' % (f, q))
         PT['forms'][g] = ok
     U = dict(tag1='BUnknown', tag2='BUnknown', test_first='BTUnknown', untag1='BUnknown', untag2='BUnknown', arms_ok=False)
@@ -881,27 +958,51 @@ def extract_pointers(src, facts, notes):
             t = strip(fn_body(r[2])[2])
             if t[0] == 'binary' and t[1] == '==' and strip(t[3])[0] == 'lit':
                 U['test_first'] = '(BEq %s %d)' % (to_bexpr(t[2]), int(strip(t[3])[1], 0))
+        # is_second is the negation of is_first (used when `borrow` tests it instead)
+        second_is_not_first = False
+        r = src.find_fn('arc_union.rs', 'ArcUnion::is_second')
+        if r:
+            t = strip(fn_body(r[2])[2]) if fn_body(r[2])[2] is not None else None
+            if t is not None and not fn_body(r[2])[1] and t[0] == 'unary' and t[1] == '!':
+                x = strip(t[2])
+                second_is_not_first = x[0] == 'mcall' and x[2] == 'is_first' and is_path(strip(x[1]), 'self') and not x[4]
         r = src.find_fn('arc_union.rs', 'ArcUnion::borrow')
         if r:
             body = fn_body(r[2]); t = strip(body[2]) if body[2] is not None else None
-            if t is not None and t[0] == 'if' and t[3] is not None:
-                c = strip(t[1])
-                cond_ok = c[0] == 'mcall' and c[2] == 'is_first' and is_path(strip(c[1]), 'self')
+            # leading `let x = <expr>;` statements name intermediate values (only pure forms are accepted by to_bexpr)
+            outer = {}; outer_ok = all(st[0] == 'let' and st[3] is not None and st[1].strip().isidentifier() for st in body[1])
+            if outer_ok:
+                for st in body[1]: outer[st[1].strip()] = resolve(st[3], outer)
+            if outer_ok and t is not None and t[0] == 'if' and t[3] is not None:
+                c = strip(t[1]); neg = False
+                while c[0] == 'unary' and c[1] == '!': c = strip(c[2]); neg = not neg
+                first_then = None
+                if c[0] == 'mcall' and is_path(strip(c[1]), 'self') and not c[4]:
+                    if c[2] == 'is_first': first_then = not neg
+                    elif c[2] == 'is_second' and second_is_not_first: first_then = neg
+                def unwrap(x):
+                    x = strip(x)
+                    while x is not None and x[0] in ('unsafe', 'block'):
+                        blk = x[1] if x[0] == 'unsafe' else x
+                        if blk[1] or blk[2] is None: break
+                        x = strip(blk[2])
+                    return x
                 def arm(b, variant):
-                    env = collect_lets(b); res = 'BUnknown'; ok = False
-                    if 'ptr' in env: res = to_bexpr(env['ptr'])
-                    tl = strip(b[2]) if b[2] is not None else None
-                    if tl is not None and tl[0] == 'call' and (call_path(tl) or '') == 'ArcUnionBorrow::' + variant:
-                        br = env.get('borrow')
-                        if br is not None:
-                            x = strip(br)
-                            if x[0] == 'unsafe': x = strip(x[1][2])
-                            ok = x[0] == 'call' and (call_path(x) or '') == 'ArcBorrow::from_ptr' and len(x[2]) == 1 and is_path(strip(x[2][0]), 'ptr')
+                    b = strip(b) if b[0] != 'block' else b
+                    if b[0] != 'block': return 'BUnknown', False
+                    env = dict(outer); res = 'BUnknown'; ok = False
+                    if not all(st[0] == 'let' and st[3] is not None and st[1].strip().isidentifier() for st in b[1]): return res, ok
+                    for st in b[1]: env[st[1].strip()] = st[3]
+                    tl = unwrap(b[2]) if b[2] is not None else None
+                    if tl is not None and tl[0] == 'call' and (call_path(tl) or '') == 'ArcUnionBorrow::' + variant and len(tl[2]) == 1:
+                        x = unwrap(tl[2][0])
+                        if x[0] == 'path' and len(x[1]) == 1 and x[1][0] in env: x = unwrap(env[x[1][0]])
+                        if x[0] == 'call' and (call_path(x) or '') == 'ArcBorrow::from_ptr' and len(x[2]) == 1:
+                            res = to_bexpr(resolve(x[2][0], env)); ok = 'BUnknown' not in res
                     return res, ok
-                els = t[3]
-                if els[0] != 'block': els = strip(els)
-                e1, ok1 = arm(t[2], 'First'); e2, ok2 = arm(els, 'Second')
-                if cond_ok:
+                if first_then is not None:
+                    a1, a2 = (t[2], t[3]) if first_then else (t[3], t[2])
+                    e1, ok1 = arm(a1, 'First'); e2, ok2 = arm(a2, 'Second')
                     U['untag1'] = e1; U['untag2'] = e2; U['arms_ok'] = ok1 and ok2
     except (ParseError, IndexError, TypeError) as ex:
         notes.append('pointers: arc_union.rs: %s' % ex)
@@ -976,9 +1077,12 @@ def is_ptr_eq(e):
         return p(e[2][0], 'self') and p(e[2][1], 'other')
     return False
 
-def classify_cmp(ty, meth, fn):
+def classify_cmp(ty, meth, fn, helpers=None, caller_types=None):
     try:
         body = fn_body(fn)
+        if helpers:
+            import canon
+            body = canon.inline_helpers(body, helpers, caller_types)
     except ParseError:
         return 'FUnknownForm'
     stm = [x for x in body[1] if x[0] != 'item']
@@ -993,7 +1097,13 @@ def classify_cmp(ty, meth, fn):
     if ty == 'ArcUnion' and meth == 'eq':
         txt = toks_text(fn.body).replace(' ', '')
         exp = 'usecrate::ArcUnionBorrow::*;match(self.borrow(),other.borrow()){(First(x),First(y))=>x==y,(Second(x),Second(y))=>x==y,(_,_)=>false,}'
-        return 'FUnionMatch' if txt == exp else 'FUnknownForm'
+        if txt == exp: return 'FUnionMatch'
+        try:
+            import canon
+            exp_src = 'use crate::ArcUnionBorrow::*; match (self.borrow(), other.borrow()) { (First(x), First(y)) => x == y, (Second(x), Second(y)) => x == y, (_, _) => false, }'
+            return 'FUnionMatch' if canon.canon(fn.body, ['other']) == canon.canon(lex(exp_src), ['other']) else 'FUnknownForm'
+        except Exception:
+            return 'FUnknownForm'
     if stm: return 'FUnknownForm'
     if meth in BINOPS.values():
         if deleg_binop(t, meth): return 'FDeleg'
@@ -1068,7 +1178,7 @@ def extract_cmp(src, facts, notes):
                 m = c.name
                 if trn in ('Debug', 'Display') and m == 'fmt': m = trn + '::fmt'
                 try:
-                    form = classify_cmp(head, m, c)
+                    form = classify_cmp(head, m, c, private_helpers(src, f, None), caller_param_types(src, it, c))
                 except (IndexError, TypeError, KeyError):
                     form = 'FUnknownForm'
                 table[(head, m)] = form
